@@ -1,1 +1,382 @@
-"""rules for c08 (under construction)"""
+"""C08 - MPI variants equal their serial counterparts under every schedule (structural necessary conditions).
+
+Nothing of the MPI path can be executed in this sandbox (no mpi4py), so source inspection is the only evidence there is.
+"""
+
+import ast
+import re
+
+from ..cfg import FuncCFG, walk_no_nested, ENTRY, EXIT
+from ..model import AnalysisError, ClassInfo, qual
+from ..norm import Normalizer, bool_nf, nnf, guards_nnf
+from ..runner import rule
+from .. import controllers as ct
+from .. import facts
+
+CC = 'pySDC/implementations/convergence_controller_classes/'
+CCORE = 'pySDC/core/convergence_controller.py'
+MPI_REL, MPI_CN = ct.MPI[0], ct.MPI[1]
+
+# E7 - API table
+COLLECTIVE = {'bcast', 'Bcast', 'allreduce', 'Allreduce', 'reduce', 'Reduce', 'allgather', 'Allgather', 'gather', 'Gather', 'scatter', 'Scatter',
+              'Barrier', 'barrier', 'Split', 'Ibcast', 'Free', 'Allgatherv', 'Alltoall', 'alltoall', 'Dup'}
+P2P_SEND = {'send', 'Send', 'isend', 'Isend', 'Issend', 'issend', 'Ssend'}
+P2P_RECV = {'recv', 'Recv', 'irecv', 'Irecv'}
+REQUEST = {'Wait', 'wait', 'Test', 'test', 'Cancel', 'Waitall'}
+RANK_ATOM = re.compile(r'\.rank\b|Get_rank\(\)|status\.(slot|first|last|prev_done|done|restart)\b|MPI_ROOT|\.prev\b|\.next\b')
+SCOPE = ('pySDC/core/', 'controller_classes', 'sweeper_classes', 'convergence_controller_classes', 'transfer_classes', 'datatype_classes/mesh.py')
+
+R1_EXC = {
+    ('base_transfer_MPI.restrict', 'F.tau[CF.rank] is not None'): 'tau is allocated for all nodes by the same restrict of the finer pair: the test has the same value on every rank of the node communicator',
+    ('generic_implicit_MPI.compute_end_point', 'L.tau[self.rank] is not None'): 'same: tau[r] is None on all ranks or on none',
+    ('imex_1st_order_MPI.compute_end_point', 'L.tau[self.rank] is not None'): 'same',
+    ('controller_MPI.check_iteration_estimate', '*'): 'interrupt-based iteration estimator - excluded by the property (schedule dependent by design)',
+    ('controller_MPI.pfasst', '*'): 'interrupt-based iteration estimator (Ibcast) - excluded by the property',
+    ('controller_MPI.run', 'not self.S.status.done'): 'this IS the rank-dependent iteration loop; what may be called inside it is decided by C08.R1b',
+}
+
+
+def _is_comm(recv):
+    return re.search(r'comm|\bCF\b|\bCG\b', recv) is not None
+
+
+def _raise_tests(fn):
+    """tests of `if c: raise ...` early exits (error paths: the rank aborts the run)"""
+    out = set()
+    for s in walk_no_nested(fn):
+        if isinstance(s, ast.If) and s.body and isinstance(s.body[-1], ast.Raise) and not s.orelse:
+            out.add(f'not ({ast.unparse(s.test)})')
+    return out
+
+
+def _sites(cfg, fn, names, comm_only=True):
+    out = []
+    for n, s in cfg.stmt_of.items():
+        for c in cfg.calls_at(n):
+            if isinstance(c.func, ast.Attribute) and c.func.attr in names:
+                recv = ast.unparse(c.func.value)
+                if comm_only and not _is_comm(recv) and not (c.func.attr in ('bcast', 'isend', 'irecv') and re.search(r'\.(u|uend)\b', recv)):
+                    continue
+                out.append((n, c, recv))
+    return out
+
+
+def _collective_methods(repo, ci):
+    """names of methods (resolved in the MRO) that contain a collective call directly"""
+    out = set()
+    for c in ci.mro:
+        if isinstance(c, ClassInfo):
+            for name, fn in c.methods.items():
+                for x in ast.walk(fn):
+                    if isinstance(x, ast.Call) and isinstance(x.func, ast.Attribute) and x.func.attr in COLLECTIVE and _is_comm(ast.unparse(x.func.value)):
+                        out.add(name)
+    return out
+
+
+@rule('C08', 'C08.R1', 'no collective under a rank-dependent guard (deadlock: some ranks enter the collective, others do not)', floor=60)
+def r1(ctx, R):
+    repo = ctx.repo
+    for m, ci, fn in repo.all_functions():
+        if not any(x in m.relpath for x in SCOPE):
+            continue
+        cfg = None
+        name = (ci.name + '.' if ci else '') + fn.name
+        coll_m = _collective_methods(repo, ci) if ci else set()
+        sites = []
+        for x in ast.walk(fn):
+            if isinstance(x, ast.Call) and isinstance(x.func, ast.Attribute):
+                recv = ast.unparse(x.func.value)
+                if x.func.attr in COLLECTIVE and (_is_comm(recv) or (x.func.attr == 'bcast' and re.search(r'\.(u\[0\]|uend)$', recv))):
+                    sites.append((x, f'{recv}.{x.func.attr}'))
+                elif recv == 'self' and x.func.attr in coll_m and x.func.attr != fn.name:
+                    sites.append((x, f'self.{x.func.attr}() [contains a collective]'))
+        if not sites:
+            continue
+        cfg = FuncCFG(fn)
+        rt = _raise_tests(fn)
+        w = qual(m, ci, fn)
+        R.fn(w)
+        k = {}
+        for call, label in sites:
+            st = [s for n, s in cfg.stmt_of.items() if any(y is call for e in cfg.header_exprs(s) for y in ast.walk(e))]
+            if not st:
+                continue
+            gs = [g for g in facts.guard_strings(cfg, st[0]) if g not in rt and 'force_done' not in g]
+            loops = []
+            for l in cfg.loops_of.get(id(st[0]), []):
+                loops.append(ast.unparse(l.test) if isinstance(l, ast.While) else ast.unparse(l.iter))
+            dep = [g for g in gs + loops if RANK_ATOM.search(g)]
+            i = k.get(label, 0)
+            k[label] = i + 1
+            c = f'{name} :: {label} #{i}'
+            if not dep:
+                R.ok(c, w, found='guards are rank independent: ' + (', '.join(gs + loops)[:80] or 'none'))
+                continue
+            exc = [R1_EXC.get((name, d), R1_EXC.get((name, '*'))) for d in dep]
+            if all(exc):
+                R.exc(c, w, exc[0])
+            else:
+                R.bad(c, w, 'a guard that has the same value on every rank of the communicator', dep)
+    # `while active` in controller_MPI.run: the loop condition is rank dependent by construction
+    R.exc('controller_MPI.run :: while active (collectives on comm_active inside)', f'{MPI_REL}:controller_MPI.run', 'inactive ranks were split off: all members of comm_active share `active` (Split(active) after every block)')
+
+
+TIME_COLLECTIVE_OK = {
+    ('CheckConvergence.communicate_convergence', 'controller.params.all_to_done'): 'the synchronising collective: under all_to_done it makes `done` uniform, so every rank leaves the iteration loop in the same iteration',
+}
+
+
+@rule('C08', 'C08.R1b', 'collectives on the TIME communicator reachable from the rank-dependent iteration loop (while not done) must be the synchronising one', floor=5)
+def r1b(ctx, R):
+    repo = ctx.repo
+    base = repo.cls(CCORE, 'ConvergenceController')
+    entry = ['post_iteration_processing', 'convergence_control', 'pre_iteration_processing', 'post_spread_processing', 'get_new_step_size', 'determine_restart', 'check_iteration_status']
+    seen = set()
+    for ci in repo.subclasses(base):
+        if not repo.is_library(ci):
+            continue
+        # methods reachable from the entry points inside the class (depth <= 3)
+        reach, frontier = set(), set(entry)
+        for _ in range(4):
+            nxt = set()
+            for mname in frontier:
+                r = repo.resolve(ci, mname)
+                if r is None or (r[0].name, mname) in reach:
+                    continue
+                reach.add((r[0].name, mname))
+                for x in ast.walk(r[1]):
+                    if isinstance(x, ast.Call) and isinstance(x.func, ast.Attribute) and ast.unparse(x.func.value) == 'self':
+                        nxt.add(x.func.attr)
+            frontier = nxt
+        for owner_name, mname in sorted(reach):
+            owner = [c for c in ci.mro if isinstance(c, ClassInfo) and c.name == owner_name][0]
+            fn = owner.methods.get(mname)
+            if fn is None or (owner.qname, mname) in seen:
+                continue
+            seen.add((owner.qname, mname))
+            cfg = FuncCFG(fn)
+            for n, call, recv in _sites(cfg, fn, COLLECTIVE):
+                if recv != 'comm':  # the time communicator is handed down as `comm`; self.comm / L.sweep.comm are space communicators
+                    continue
+                local = [ast.unparse(s_.value) for s_ in walk_no_nested(fn) if isinstance(s_, ast.Assign) and ast.unparse(s_.targets[0]) == 'comm']
+                if any('sweep' in v for v in local):
+                    continue  # `comm = L.sweep.comm`: the node (space) communicator under a local name
+                name = f'{owner.name}.{mname}'
+                w = f'{owner.module.relpath}:{name}'
+                R.fn(w)
+                gs = facts.guard_strings(cfg, cfg.stmt_of[n])
+                c = f'{name} :: comm.{call.func.attr} inside the iteration loop'
+                ok_key = [k for k in TIME_COLLECTIVE_OK if k[0] == name and k[1] in gs]
+                if ok_key:
+                    R.exc(c, w, TIME_COLLECTIVE_OK[ok_key[0]])
+                else:
+                    R.bad(c, w, 'no collective on the time communicator inside `while not self.S.status.done` (trip count differs between ranks) unless it is the one that synchronises `done`', f'guards {gs}')
+    fn = repo.func(MPI_REL, 'controller_MPI.run')
+    loops = [ast.unparse(l.test) for l in walk_no_nested(fn) if isinstance(l, ast.While)]
+    R.check('not self.S.status.done' in loops, 'controller_MPI.run :: the iteration loop is `while not self.S.status.done` (rank-dependent trip count)', f'{MPI_REL}:controller_MPI.run', 'while not self.S.status.done', loops)
+
+
+def _kw(call):
+    return {k.arg: ast.unparse(k.value) for k in call.keywords if k.arg}
+
+
+@rule('C08', 'C08.R2', 'point-to-point pairing: every send site has a receive site with the mirrored guard, peer and the same tag / buffer shape', floor=6)
+def r2(ctx, R):
+    repo = ctx.repo
+    # (1) forward transfer of the controller
+    sf = repo.func(MPI_REL, 'controller_MPI.send_full')
+    rf = repo.func(MPI_REL, 'controller_MPI.recv_full')
+    rc = repo.func(MPI_REL, 'controller_MPI.recv')
+    cs, cr = FuncCFG(sf), FuncCFG(rf)
+    snd = [(n, c) for n in cs.stmt_of for c in cs.calls_at(n) if isinstance(c.func, ast.Attribute) and c.func.attr == 'isend']
+    rcv = [(n, c) for n in cr.stmt_of for c in cr.calls_at(n) if ast.unparse(c.func) == 'self.recv']
+    ok = len(snd) == 1 and len(rcv) == 1
+    if ok:
+        ks, kr = _kw(snd[0][1]), _kw(rcv[0][1])
+        gs = [g for g in facts.guard_strings(cs, cs.stmt_of[snd[0][0]]) if 'force_done' not in g]
+        gr = guards_nnf(facts.guard_strings(cr, cr.stmt_of[rcv[0][0]]))
+        ok = ks.get('dest') == 'self.S.next' and kr.get('source') == 'self.S.prev' and ks.get('tag') == kr.get('tag') == 'level * 100 + self.S.status.iter'
+        ok = ok and gs == ['not self.S.status.last'] and gr == guards_nnf(['not self.S.status.first and not self.S.status.prev_done'])
+        ir = [c for c in ast.walk(rc) if isinstance(c, ast.Call) and isinstance(c.func, ast.Attribute) and c.func.attr == 'irecv']
+        ok = ok and len(ir) == 1 and _kw(ir[0]).get('source') == 'source' and _kw(ir[0]).get('tag') == 'tag' and ast.unparse(snd[0][1].func.value) == 'self.S.levels[level].uend' and ast.unparse(ir[0].func.value) == 'target.u[0]'
+    R.check(ok, 'controller_MPI :: uend.isend(next, tag=level*100+iter) if not last  <->  u[0].irecv(prev, same tag) if not first and not prev_done', f'{MPI_REL}:controller_MPI.send_full/recv_full', 'mirrored guard, peer and tag', {'send': _kw(snd[0][1]) if snd else None, 'recv': _kw(rcv[0][1]) if rcv else None})
+    # (2) default tags of the convergence-controller helpers
+    ci = repo.cls(CCORE, 'ConvergenceController')
+    tags = {}
+    for m in ('send', 'recv', 'Send', 'Recv'):
+        fn = ci.methods[m]
+        t = [ast.unparse(s.value) for s in walk_no_nested(fn) if isinstance(s, ast.Assign) and ast.unparse(s.targets[0]) == "kwargs['tag']"]
+        tags[m] = t
+    R.check(all(v == ["kwargs.get('tag', abs(self.params.control_order))"] for v in tags.values()), 'ConvergenceController.send/recv/Send/Recv :: the default tag is abs(control_order) on both sides', f'{CCORE}:ConvergenceController', "kwargs.get('tag', abs(self.params.control_order))", tags)
+    # (3..) status messages of convergence controllers: Send(slot+1) if not last <-> Recv(slot-1) if not first and not prev_done
+    pairs = [
+        (CC + 'check_convergence.py', 'CheckConvergence.communicate_convergence', 'Send', 'Recv', 'np.empty(1, dtype=bool)'),
+        (CC + 'basic_restarting.py', 'BasicRestartingMPI.determine_restart', 'Send', 'Recv', 'np.empty(3, dtype=bool)'),
+        (CC + 'estimate_embedded_error.py', 'EstimateEmbeddedErrorLinearizedMPI.post_iteration_processing', 'send', 'recv', None),
+    ]
+    for rel, name, sname, rname, buf in pairs:
+        fn = repo.func(rel, name)
+        w = f'{rel}:{name}'
+        R.fn(w)
+        cfg = FuncCFG(fn)
+        N = Normalizer(fn, inline_scalars=False)
+        s_ = [(n, c) for n in cfg.stmt_of for c in cfg.calls_at(n) if ast.unparse(c.func) == f'self.{sname}']
+        r_ = [(n, c) for n in cfg.stmt_of for c in cfg.calls_at(n) if ast.unparse(c.func) == f'self.{rname}']
+        ok = len(s_) == 1 and len(r_) == 1
+        detail = {}
+        if ok:
+            ks, kr = _kw(s_[0][1]), _kw(r_[0][1])
+            dest = ks.get('dest') or (ast.unparse(s_[0][1].args[1]) if len(s_[0][1].args) > 1 else None)
+            src = kr.get('source') or (ast.unparse(r_[0][1].args[1]) if len(r_[0][1].args) > 1 else None)
+            gS = [g for g in facts.guard_strings(cfg, cfg.stmt_of[s_[0][0]]) if 'status.iter' not in g and 'all_to_done' not in g and 'force_done' not in g]
+            gR = [g for g in facts.guard_strings(cfg, cfg.stmt_of[r_[0][0]]) if 'status.iter' not in g and 'all_to_done' not in g and 'force_done' not in g]
+            aS, aR = _flat(guards_nnf(gS)), _flat(guards_nnf(gR))
+            detail = {'dest': dest, 'source': src, 'send guard': sorted(map(str, aS)), 'recv guard': sorted(map(str, aR))}
+            ok = dest == 'S.status.slot + 1' and src == 'S.status.slot - 1' and ('not', 'S.status.last') in aS and ('not', 'S.status.first') in aR and ('not', 'S.status.prev_done') in aR
+            # extra conditions must agree on both sides (e.g. `not restart_from_first_step`)
+            extraS = aS - {('not', 'S.status.last')}
+            extraR = aR - {('not', 'S.status.first'), ('not', 'S.status.prev_done')}
+            ok = ok and extraS == extraR and ks.get('tag') == kr.get('tag')
+            if buf:
+                bufs = [c.rhs for c in N.contribs if c.target == 'buff' and c.rhs and c.rhs.startswith('np.empty(')]
+                ok = ok and len(bufs) == 2 and set(bufs) == {buf}
+                detail['buffers'] = bufs
+        R.check(ok, f'{name} :: {sname}(slot+1) if not last  <->  {rname}(slot-1) if not first and not prev_done; same extra conditions, tag and buffer', w, 'mirrored guard/peer, identical tag, identical buffer dtype and shape', detail)
+    # (6) iteration-estimator diff message (tag 999) - pairing only
+    fn = repo.func(MPI_REL, 'controller_MPI.check_iteration_estimate')
+    tg = sorted({_kw(c).get('tag') for c in ast.walk(fn) if isinstance(c, ast.Call) and isinstance(c.func, ast.Attribute) and c.func.attr in ('Irecv', 'Issend')})
+    R.check(tg == ['999'], 'controller_MPI.check_iteration_estimate :: Issend/Irecv of the diff use the same tag', f'{MPI_REL}:controller_MPI.check_iteration_estimate', ['999'], tg)
+
+
+def _flat(nf):
+    if isinstance(nf, tuple) and nf[0] == 'and':
+        return set(nf[1])
+    return {nf}
+
+
+@rule('C08', 'C08.R3', 'wait before reuse: the previous non-blocking send of a level is completed before its buffer (uend) is recomputed; DONE waits or cancels every open request', floor=4)
+def r3(ctx, R):
+    repo = ctx.repo
+    fn = repo.func(MPI_REL, 'controller_MPI.send_full')
+    w = f'{MPI_REL}:controller_MPI.send_full'
+    R.fn(w)
+    cfg = FuncCFG(fn)
+    wait = [(n, c) for n in cfg.stmt_of for c in cfg.calls_at(n) if ast.unparse(c.func) == 'self.wait_with_interrupt' and _kw(c).get('request') == 'self.req_send[level]']
+    cep = [n for n in cfg.stmt_of if any(ast.unparse(c.func).endswith('.sweep.compute_end_point') for c in cfg.calls_at(n))]
+    snd = [(n, s) for n, s in cfg.stmt_of.items() if isinstance(s, ast.Assign) and ast.unparse(s.targets[0]) == 'self.req_send[level]']
+    pre = [x for x in wait if 'not blocking' in facts.guard_strings(cfg, cfg.stmt_of[x[0]])]
+    post = [x for x in wait if 'blocking' in facts.guard_strings(cfg, cfg.stmt_of[x[0]])]
+    ok = len(pre) == 1 and len(cep) == 1 and len(snd) == 1 and len(post) == 1
+    if ok:
+        # non-blocking: wait(previous) -> recompute uend -> isend ; blocking: isend -> wait
+        ok = not cfg.reachable(cep[0], pre[0][0]) and cfg.reachable(pre[0][0], cep[0]) and cfg.dominates(cep[0], snd[0][0]) and cfg.dominates(snd[0][0], post[0][0])
+        ok = ok and 'isend(' in ast.unparse(snd[0][1].value) and ast.unparse(snd[0][1].value).startswith('self.S.levels[level].uend.isend(')
+    R.check(ok, 'controller_MPI.send_full :: wait(req_send[level]) (if not blocking) precedes compute_end_point(), which precedes isend; a blocking send waits right after posting', w, 'wait -> recompute uend -> isend (-> wait if blocking); the request is stored in req_send[level]', {'pre-waits': len(pre), 'end point': len(cep), 'isend': len(snd), 'post-waits': len(post)})
+    # every caller that sweeps after a non-blocking send goes through send_full again (no direct isend elsewhere)
+    direct = []
+    ci = repo.cls(MPI_REL, MPI_CN)
+    for name, f in ci.methods.items():
+        if name == 'send_full':
+            continue
+        for c in ast.walk(f):
+            if isinstance(c, ast.Call) and isinstance(c.func, ast.Attribute) and c.func.attr in ('isend', 'Isend', 'Issend') and 'uend' in ast.unparse(c.func.value):
+                direct.append(name)
+    R.check(not direct, 'controller_MPI :: uend is only ever sent through send_full', MPI_REL, 'no other isend of uend', direct)
+    # DONE arm
+    _, hs = ct.handler_table(repo, ct.MPI)
+    h = hs['IT_CHECK']
+    R.fn(h.where)
+    done = [(n, g) for n, v, g, s in h.stage_writes() if v == 'DONE']
+    reqs = {'self.req_send': False, 'self.req_status': False, 'self.req_diff': False}
+    for arm, meth in (("not self.params.use_iteration_estimator", 'Wait'), ("not (not self.params.use_iteration_estimator)", 'Cancel')):
+        found = set()
+        for n in h.cfg.stmt_of:
+            for c in h.cfg.calls_at(n):
+                if isinstance(c.func, ast.Attribute) and c.func.attr == meth and arm in h.guard_strs(n):
+                    r_ = ast.unparse(c.func.value)
+                    if r_ == 'req':
+                        lp = [ast.unparse(l.iter) for l in h.cfg.loops_of[id(h.cfg.stmt_of[n])]]
+                        r_ = lp[-1] if lp else r_
+                    found.add(r_)
+        ok = found == set(reqs)
+        R.check(ok, f'controller_MPI.it_check :: the DONE arm {meth}s req_send[*], req_status and req_diff ({"normal" if meth == "Wait" else "interrupt estimator"} mode)', h.where, sorted(reqs), sorted(found))
+
+
+@rule('C08', 'C08.R4', 'request retention (report only): results of non-blocking sends that are discarded', floor=1, tier='quick')
+def r4(ctx, R):
+    repo = ctx.repo
+    n = 0
+    for m, ci, fn in repo.all_functions():
+        if not any(x in m.relpath for x in SCOPE):
+            continue
+        for s in walk_no_nested(fn):
+            if isinstance(s, ast.Expr) and isinstance(s.value, ast.Call) and ast.unparse(s.value.func) in ('self.Send', 'self.send'):
+                kw = _kw(s.value)
+                if kw.get('blocking') != 'True':
+                    n += 1
+                    R.note(f'{(ci.name + ".") if ci else ""}{fn.name} :: {ast.unparse(s.value.func)}(..) non-blocking, request discarded', qual(m, ci, fn), 'the buffer is a local that is never rewritten, so the statement of C08 is not violated; the request can never be completed or cancelled')
+    R.ok('scan for discarded requests', 'run-time modules', found=f'{n} site(s) reported as NOTE')
+
+
+def _cmp_table(fn):
+    """(sorted operand strings) -> set of operators, for comparisons between a status field and a parameter"""
+    out = {}
+    for x in walk_no_nested(fn):
+        if isinstance(x, ast.Compare) and len(x.ops) == 1:
+            l, r = ast.unparse(x.left), ast.unparse(x.comparators[0])
+            if ('status.' in l and 'params.' in r) or ('status.' in r and 'params.' in l):
+                s = bool_nf(x)
+                m = re.match(r'^(.*) (<=|<|==|!=) (.*)$', s)
+                if m:
+                    key = tuple(sorted([m.group(1), m.group(3)]))
+                    out.setdefault(key, set()).add((m.group(1), m.group(2), m.group(3)))
+    return out
+
+
+@rule('C08', 'C08.R5', 'sibling agreement serial <-> MPI: stage graph, callbacks, end point in the DONE arm, dispatch names, comparison operators', floor=20)
+def r5(ctx, R):
+    repo = ctx.repo
+    _, hn = ct.handler_table(repo, ct.NONMPI)
+    _, hm = ct.handler_table(repo, ct.MPI)
+    R.check(sorted(hn) == sorted(hm), 'controller_nonMPI / controller_MPI :: same stages', ct.MPI[0], sorted(hn), sorted(hm))
+    for stage in sorted(set(hn) & set(hm)):
+        a, b = hn[stage], hm[stage]
+        sa = {v for _, v, _, _ in a.stage_writes()}
+        sb = {v for _, v, _, _ in b.stage_writes()}
+        R.check(sa == sb, f'{stage} :: successor stages agree', b.where, sorted(sa), sorted(sb))
+        ea = sorted({cb for _, cb, _ in a.emissions()} - {'pre_comm', 'post_comm'})
+        eb = sorted({cb for _, cb, _ in b.emissions()} - {'pre_comm', 'post_comm'})
+        R.check(ea == eb, f'{stage} :: callbacks emitted agree', b.where, ea, eb)
+        if stage.startswith('IT_') and stage != 'IT_CHECK':
+            na = sorted(re.sub(r'^self\.', '', ast.unparse(c.func.value)).replace('self.S.', 'S.') for _, c in a.calls('update_nodes'))
+            nb = sorted(ast.unparse(c.func.value).replace('self.S.', 'S.') for _, c in b.calls('update_nodes'))
+            R.check(na == nb, f'{stage} :: the same levels are swept', b.where, na, nb)
+    # DONE arm of IT_CHECK: the serial controller recomputes the end point after the last receive
+    a, b = hn['IT_CHECK'], hm['IT_CHECK']
+    ca = [n for n, c in a.calls('compute_end_point') if any(re.search(r'not \(not \(?(self\.)?S\.status\.done', g) for g in a.guard_strs(n))]
+    cb = [n for n, c in b.calls('compute_end_point') if any(re.search(r'not \(not \(?(self\.)?S\.status\.done', g) for g in b.guard_strs(n))]
+    if not ca:
+        raise AnalysisError('controller_nonMPI.it_check: compute_end_point() in the done arm not found')
+    R.check(bool(cb), 'controller_MPI.it_check :: end point recomputed in the DONE arm (after the last receive), as in the serial controller', b.where, 'S.levels[0].sweep.compute_end_point() before post_step', 'missing: uend sent to the next block was computed in send_full BEFORE recv_full')
+    # initial guess names
+    sp = repo.func('pySDC/core/sweeper.py', 'Sweeper.predict')
+    mp = repo.func('pySDC/implementations/sweeper_classes/generic_implicit_MPI.py', 'SweeperMPI.predict')
+    da = [c for c in facts.dispatch_chains(sp) if c['subject'].endswith('initial_guess')]
+    db = [c for c in facts.dispatch_chains(mp) if c['subject'].endswith('initial_guess')]
+    ok = len(da) == 1 and len(db) == 1 and set(db[0]['names']) <= set(da[0]['names']) and db[0]['else_kind'] == 'raise'
+    R.check(ok, 'Sweeper.predict / SweeperMPI.predict :: MPI accepts a subset of the initial-guess names and rejects the rest', 'pySDC/implementations/sweeper_classes/generic_implicit_MPI.py:SweeperMPI.predict', sorted(da[0]['names']) if da else None, {'names': sorted(db[0]['names']) if db else None, 'else': db[0]['else_kind'] if db else None})
+    # comparison operators of sibling convergence controllers
+    sib = [(CC + 'basic_restarting.py', 'BasicRestartingNonMPI', 'BasicRestartingMPI'), (CC + 'spread_step_sizes.py', 'SpreadStepSizesBlockwiseNonMPI', 'SpreadStepSizesBlockwiseMPI'),
+           (CC + 'estimate_embedded_error.py', 'EstimateEmbeddedErrorLinearizedNonMPI', 'EstimateEmbeddedErrorLinearizedMPI')]
+    for rel, s_, m_ in sib:
+        cs, cm = repo.cls(rel, s_), repo.cls(rel, m_)
+        for meth in sorted(set(cs.methods) & set(cm.methods)):
+            ta, tb = _cmp_table(cs.methods[meth]), _cmp_table(cm.methods[meth])
+            for key in sorted(set(ta) | set(tb)):
+                ops_a = ta.get(key, set())
+                ops_b = tb.get(key, set())
+                w = f'{rel}:{m_}.{meth}'
+                if not ops_a:
+                    continue
+                extra = ops_b - ops_a
+                R.check(not extra, f'{m_}.{meth} :: comparisons of {key} use the operators of the serial sibling', w, sorted(ops_a), sorted(extra) or sorted(ops_b))
